@@ -797,3 +797,56 @@ Proof. vm_compute. repeat split; reflexivity. Qed.
 
 Example ex_defuse : defuse false [27;91;49;59;50;72;120; 27;91;51;49;109; 27;65] = [27;91;49;59;50;115;120; 27;91;51;49;109; 27;115].
 Proof. vm_compute. reflexivity. Qed.
+
+(* ------------------------------------------------------------------ progress: two fresh names suffice *)
+Lemma post_on_succeeds role u b q r1 r2 rest :
+  q_rnds q = r1 :: r2 :: rest ->
+  let n1 := stamp_name (wrap32 (q_nowA q + 1)) r1 in
+  let n2 := stamp_name (wrap32 (q_nowB q + 1)) r2 in
+  fexists (b_files b) n1 = false -> fexists (b_files b) n2 = false -> n1 <> n2 ->
+  exists r, post_on role u b q = Ok r.
+Proof.
+  intros E n1 n2 F1 F2 NE. unfold post_on. rewrite E.
+  rewrite (stamp_first_fresh _ _ _ _ F1). cbv zeta. fold n1.
+  match goal with |- context [stamp ?fs (q_nowB q) (r2 :: rest)] => set (fs2 := fs) end.
+  assert (F2' : fexists fs2 n2 = false).
+  { apply fexists_false. apply fexists_false in F2. rewrite <- F2. subst fs2. unfold fs_write0.
+    rewrite lookup_set_same. rewrite !lookup_set_other by exact NE. reflexivity. }
+  rewrite (stamp_first_fresh _ _ _ _ F2'). fold n2.
+  eexists. reflexivity.
+Qed.
+
+(* ------------------------------------------------------------------ the calendar algorithm against its inverse (days_from_civil), on every day of the range *)
+Definition days_from_civil (y m d : Z) : Z :=
+  let y' := if m <=? 2 then y - 1 else y in
+  let era := y' / 400 in
+  let yoe := y' - era * 400 in
+  let doy := (153 * (if m >? 2 then m - 3 else m + 9) + 2) / 5 + d - 1 in
+  let doe := yoe * 365 + yoe / 4 - yoe / 100 + doy in
+  era * 146097 + doe - 719468.
+Definition is_leap (y : Z) : bool := ((y mod 4 =? 0) && negb (y mod 100 =? 0)) || (y mod 400 =? 0).
+Definition month_len (y m : Z) : Z :=
+  if m =? 2 then (if is_leap y then 29 else 28)
+  else if (m =? 4) || (m =? 6) || (m =? 9) || (m =? 11) then 30 else 31.
+Definition civil_ok (i : Z) : bool :=
+  let '(y, m, d) := civil (11574 + i) in
+  (1 <=? m) && (m <=? 12) && (1 <=? d) && (d <=? month_len y m) && (2001 <=? y) && (y <=? 2038)
+  && (days_from_civil y m d =? 11574 + i).
+
+Lemma civil_sweep : forallb civil_ok (zrange (Z.to_nat 13290)) = true.
+Proof. vm_compute. reflexivity. Qed.
+
+(* for every time of the range, the (year, month, day) used for the date field and the header is a valid calendar
+   date of the local day number (t + 8h) / 86400 *)
+Lemma civil_correct t : 1000000000 <= t < 2147483648 ->
+  let '(y, m, d) := civil ((t + TZ_OFFSET) / 86400) in
+  1 <= m <= 12 /\ 1 <= d <= month_len y m /\ 2001 <= y <= 2038 /\ days_from_civil y m d = (t + TZ_OFFSET) / 86400.
+Proof.
+  intros H. unfold TZ_OFFSET. set (dd := (t + 28800) / 86400).
+  assert (Hd : 0 <= dd - 11574 < Z.of_nat (Z.to_nat 13290)) by (rewrite Z2Nat.id by lia; subst dd; lia).
+  pose proof (sweep civil_ok _ civil_sweep _ Hd) as S. unfold civil_ok in S.
+  replace (11574 + (dd - 11574)) with dd in S by lia.
+  destruct (civil dd) as [[y m] d]. rewrite !andb_true_iff in S.
+  destruct S as ((((((S1 & S2) & S3) & S4) & S5) & S6) & S7).
+  apply Z.eqb_eq in S7. lia.
+Qed.
